@@ -7,7 +7,7 @@ From TV Require Import Proofs.SpansDefs Proofs.SpansBase Proofs.SpansLex.
 Require Import Lia ZifyBool ZifyN ZifyNat.
 
 Lemma sp_in_pair lo hi a b : (lo <= a)%N -> (a <= b)%N -> (b <= hi)%N -> sp_in lo hi (a, b) = true.
-Proof. unfold sp_in; cbn [fst snd]. lia. Qed.
+Proof. unfold sp_in; cbn [fst snd]. nlia. Qed.
 
 (* ---- check_recursion ------------------------------------------------------------------------------------ *)
 Lemma winP_check_recursion {A} (Q : N -> N -> A -> Prop) (p : parser A) : winP Q p -> winP Q (check_recursion p).
@@ -27,9 +27,9 @@ Lemma pair_in_wide lo hi x : pair_in lo hi x ->
 Proof.
   intros (mid & H1 & H2 & H3 & L & U). repeat split.
   - unfold keys_in in *. apply forallb_Forall. apply forallb_Forall in H1. eapply Forall_impl; [|exact H1].
-    intros k. apply key_in_mono; lia.
-  - eapply key_in_mono; [| |exact H2]; lia.
-  - eapply item_in_mono; [| |exact H3]; lia.
+    intros k. apply key_in_mono; nlia.
+  - eapply key_in_mono; [| |exact H2]; nlia.
+  - eapply item_in_mono; [| |exact H3]; nlia.
 Qed.
 
 Lemma inline_insert_in lo hi : forall path m dh pe k v m',
@@ -75,7 +75,7 @@ Lemma widen_in lo hi sp ks e :
   osp_in lo hi sp = true -> sp_in lo hi ks = true -> (snd ks <= e)%N -> (e <= hi)%N ->
   osp_in lo hi (widen sp ks e) = true.
 Proof.
-  unfold widen. intros H1 H2 H3 H4. destruct sp as [s|]; cbn [osp_in] in *; unfold sp_in in *; cbn [fst snd]; lia.
+  unfold widen. intros H1 H2 H3 H4. destruct sp as [s|]; cbn [osp_in] in *; unfold sp_in in *; cbn [fst snd]; nlia.
 Qed.
 
 (* the span bookkeeping of dotted inline tables: a key of the path and the end of the value *)
@@ -93,7 +93,7 @@ Proof.
   apply items_in_set; [exact Hm|]. rewrite item_in_inline. apply andb4. repeat split; auto.
   destruct dt; [|exact H4]. destruct (key_span k) as [ks|] eqn:K; [|exact H4]. destruct ve as [e|]; [|exact H4].
   destruct (Hve e eq_refl) as [Ha Hb]. pose proof (key_span_in _ _ _ _ Hk K) as Hks.
-  apply widen_in; [exact H4| | |exact Hb]; unfold sp_in in *; lia.
+  apply widen_in; [exact H4| | |exact Hb]; unfold sp_in in *; nlia.
 Qed.
 
 Lemma item_end_in lo hi v e : item_in lo hi v = true -> item_end v = Some e -> (lo <= e)%N /\ (e <= hi)%N.
@@ -108,7 +108,7 @@ Proof.
       + rewrite inline_in_items in H. apply andb4 in H as (_ & _ & _ & H). subst sp0. exact H.
     - rewrite item_in_table, tbl_in_items in H. apply andb3 in H as (_ & _ & H). rewrite S in H. exact H.
     - rewrite item_in_aot in H. apply andb_true_iff in H as [_ H]. subst asp. exact H. }
-  unfold sp_in in X. lia.
+  unfold sp_in in X. nlia.
 Qed.
 
 Lemma inline_spans_pass_in lo hi : forall pairs m,
@@ -150,8 +150,8 @@ Section Knot.
     intros lo hi i it i' E L U. unfold array_value in E. binds E. apply ret_ok in E as [-> ->].
     apply span_ok in E0 as (-> & x0 & E0). apply span_ok in E2 as (-> & x2 & E2).
     pos_le E0. pos_le E2. pose proof (mono_le _ _ _ _ Hm E1).
-    cbn [item_in]. apply value_in_decorate; [eapply Hw; [exact E1|lia|lia]| |];
-      apply raw_with_span_in, sp_in_pair; lia.
+    cbn [item_in]. apply value_in_decorate; [eapply Hw; [exact E1|nlia|nlia]| |];
+      apply raw_with_span_in, sp_in_pair; nlia.
   Qed.
 
   Lemma array_values_win : winP body_in (array_values value_rec).
@@ -164,16 +164,16 @@ Section Knot.
       assert (M1 : (pos j0 <= pos j1)%N).
       { eapply mono_le; [|exact E2]. destruct a; np. }
       assert (M0 : (pos i <= pos j0)%N) by (eapply mono_le; [|exact E1]; np).
-      cbn [body_in]. split; [|apply raw_with_span_in, sp_in_pair; lia].
+      cbn [body_in]. split; [|apply raw_with_span_in, sp_in_pair; nlia].
       apply forallb_Forall.
-      eapply (winP_separated0 (fun lo hi it => item_in lo hi it = true) (array_value value_rec) (byte_ ARRAY_SEP)); [exact Mav|np|apply array_value_win|exact E1|lia|lia].
+      eapply (winP_separated0 (fun lo hi it => item_in lo hi it = true) (array_value value_rec) (byte_ ARRAY_SEP)); [exact Mav|np|apply array_value_win|exact E1|nlia|nlia].
   Qed.
 
   Lemma array_win : winP body_in (array value_rec).
   Proof.
     pose proof (array_values_mono _ Hm) as Mav.
     intros lo hi i v i' E L U. unfold array in E. binds E. apply ret_ok in E as [-> ->].
-    apply cut_err_ok in E1. pos_le E0. pos_le E2. eapply array_values_win; [exact E1|lia|lia].
+    apply cut_err_ok in E1. pos_le E0. pos_le E2. eapply array_values_win; [exact E1|nlia|nlia].
   Qed.
 
   Lemma inline_kv_rhs_win :
@@ -183,7 +183,7 @@ Section Knot.
     intros lo hi i x i' E L U. unfold inline_kv_rhs in E. apply cut_err_ok in E. binds E. apply ret_ok in E as [-> ->].
     apply span_ok in E1 as (-> & x1 & E1). apply span_ok in E3 as (-> & x3 & E3). cbn [fst snd].
     pos_le E0. pos_le E1. pos_le E3. pose proof (mono_le _ _ _ _ Hm E2).
-    repeat split; [apply sp_in_pair; lia|eapply Hw; [exact E2|lia|lia]|apply sp_in_pair; lia].
+    repeat split; [apply sp_in_pair; nlia|eapply Hw; [exact E2|nlia|nlia]|apply sp_in_pair; nlia].
   Qed.
 
   Lemma inline_keyval_win : winP pair_in (inline_keyval value_rec).
@@ -195,7 +195,7 @@ Section Knot.
     pose proof (key_win lo (pos j) _ _ _ E0 L (N.le_refl _)) as Hk. cbn beta in Hk.
     destruct (pop_key_in _ _ _ _ _ Hk P) as [Hpath Hkk].
     pose proof (inline_kv_rhs_win (pos j) hi _ _ _ E1 (N.le_refl _) U) as (H1 & H2 & H3). cbn [fst snd] in *.
-    exists (pos j). cbn [fst snd]. repeat split; [exact Hpath|exact Hkk| |lia|lia].
+    exists (pos j). cbn [fst snd]. repeat split; [exact Hpath|exact Hkk| |nlia|nlia].
     cbn [item_in]. apply value_in_decorate; [exact H2|apply raw_with_span_in, H1|apply raw_with_span_in, H3].
   Qed.
 
@@ -206,8 +206,8 @@ Section Knot.
     intros lo hi i x i' E L U. unfold inline_kvs in E. binds E. apply ret_ok in E as [-> ->]. cbn [fst snd].
     apply span_ok in E1 as (-> & x1 & E1). pos_le E1.
     assert (M0 : (pos i <= pos j)%N) by (eapply mono_le; [|exact E0]; np).
-    split; [|apply raw_with_span_in, sp_in_pair; lia].
-    eapply (winP_separated0 pair_in (inline_keyval value_rec) (byte_ INLINE_TABLE_SEP)); [exact Mk|np|apply inline_keyval_win|exact E0|lia|lia].
+    split; [|apply raw_with_span_in, sp_in_pair; nlia].
+    eapply (winP_separated0 pair_in (inline_keyval value_rec) (byte_ INLINE_TABLE_SEP)); [exact Mk|np|apply inline_keyval_win|exact E0|nlia|nlia].
   Qed.
 
   Lemma inline_body_win : winP body_in (inline_body value_rec).
@@ -221,7 +221,7 @@ Section Knot.
   Proof.
     pose proof (inline_body_mono _ Hm) as Mb.
     intros lo hi i v i' E L U. rewrite inline_table_eq in E. binds E. apply ret_ok in E as [-> ->].
-    apply cut_err_ok in E1. pos_le E0. pos_le E2. eapply inline_body_win; [exact E1|lia|lia].
+    apply cut_err_ok in E1. pos_le E0. pos_le E2. eapply inline_body_win; [exact E1|nlia|nlia].
   Qed.
 
   Lemma winP_scalar {A} (p : parser A) (f : A -> scalar) : winP body_in (pmap (fun x => scalar_value (f x)) p).
@@ -252,20 +252,20 @@ Section Knot.
     intros H L M U. unfold apply_raw.
     destruct v as [s [r|] d|vals tr c d [sp|]|items pre im dt d [sp|]]; cbn [body_in] in H; try contradiction;
       cbn [value_decorate value_in].
-    - rewrite decor_in_new by reflexivity. rewrite andb_true_r. cbn [oraw_in]. apply raw_with_span_in, sp_in_pair; lia.
-    - destruct H as [H1 H2]. apply andb4. split; [|split; [|split; [reflexivity|cbn [osp_in]; apply sp_in_pair; lia]]].
-      + apply forallb_Forall. apply forallb_Forall in H1. eapply Forall_impl; [|exact H1]. intro it. apply item_in_mono; lia.
-      + eapply raw_in_mono; [| |exact H2]; lia.
-    - destruct H as [H1 H2]. apply andb4. split; [|split; [|split; [reflexivity|cbn [osp_in]; apply sp_in_pair; lia]]].
-      + eapply items_in_mono; [| |exact H1]; lia.
-      + eapply raw_in_mono; [| |exact H2]; lia.
+    - rewrite decor_in_new by reflexivity. rewrite andb_true_r. cbn [oraw_in]. apply raw_with_span_in, sp_in_pair; nlia.
+    - destruct H as [H1 H2]. apply andb4. split; [|split; [|split; [reflexivity|cbn [osp_in]; apply sp_in_pair; nlia]]].
+      + apply forallb_Forall. apply forallb_Forall in H1. eapply Forall_impl; [|exact H1]. intro it. apply item_in_mono; nlia.
+      + eapply raw_in_mono; [| |exact H2]; nlia.
+    - destruct H as [H1 H2]. apply andb4. split; [|split; [|split; [reflexivity|cbn [osp_in]; apply sp_in_pair; nlia]]].
+      + eapply items_in_mono; [| |exact H1]; nlia.
+      + eapply raw_in_mono; [| |exact H2]; nlia.
   Qed.
 
   Lemma value_step_win : winP (fun lo hi v => value_in lo hi v = true) (value_step value_rec).
   Proof.
     intros lo hi i v i' E L U. apply value_step_exact in E as (v0 & E & ->).
     pose proof (mono_le _ _ _ _ (value_body_mono _ Hm) E).
-    apply apply_raw_in; [|lia|lia|lia]. eapply value_body_win; [exact E|lia|lia].
+    apply apply_raw_in; [|nlia|nlia|nlia]. eapply value_body_win; [exact E|nlia|nlia].
   Qed.
 End Knot.
 
